@@ -342,6 +342,29 @@ def _definition_check(out, case, project, env):
                 break
             if exp[0] != t[0]:
                 out.nontrivial.add(("d", bid))
+            # the other go-to-definition entry point must lead to the same line
+            if info["kind"] in ("local", "const", "func", "class", "method", "inst", "cattr"):
+                from rope.contrib import findit
+
+                out.evals += 1
+                try:
+                    loc = findit.find_definition(project, src, t[1], res)
+                except rex.RopeError:
+                    out.refused += 1
+                    continue
+                except Exception:
+                    continue  # clause (1)
+                if loc is None:
+                    got2 = (None, None)
+                else:
+                    got2 = (loc.resource.path if loc.resource is not None else t[0], loc.lineno)
+                if got2 != exp and not (loc is None and t[4] == "def"):
+                    out.violation(
+                        "C20:find_definition:%s:%s" % (info["kind"], t[4]),
+                        "%s:%d %r (%s, role %s): expected %s, find_definition gives %s" % (t[0], t[1], info["name"], info["kind"], t[4], exp, got2),
+                        {"bid": bid},
+                    )
+                    break
 
 
 def evaluate(case, env):
